@@ -285,6 +285,9 @@ class CopyObject(_H5Scenario):
             other = Workspace()
             parent = other
         _add_text(src, assoc)
+        if self.params.get("visual"):       # visual parameters: an XML child holding (among others) the colour of the object
+            src.add_default_visual_parameters()
+            src.visual_parameters.colour = [10, 20, 30]
         with self.engine(cx) as X:
             setstate(cx, X, src)
             _add_children(cx, X, src, assoc, n)
@@ -342,6 +345,16 @@ class CopyObject(_H5Scenario):
             if cls == "Drillhole":
                 cp.collar = [-5.0, -6.0, -7.0]
                 edits["collar"] = _norm(cp.collar)
+            if self.params.get("visual"):
+                cx.prove(src.visual_parameters is not None and src.visual_parameters.colour == [10, 20, 30], "the source keeps its colour", "source undisturbed")
+                vp = cp.visual_parameters
+                if with_children:
+                    cx.prove(vp is not None and vp is not src.visual_parameters and vp.colour == [10, 20, 30],
+                             "the copy has visual parameters of its own with the source's colour", "children copied")
+                if vp is not None:
+                    vp.colour = [200, 100, 50]       # an edit of the copy's appearance
+                    cx.prove(src.visual_parameters.colour == [10, 20, 30], "colouring the copy does not colour the source",
+                             "edits do not show through")
             cp.name = "edited copy"
             md = cp.metadata
             if isinstance(md, dict) and isinstance(md.get("k"), dict):
@@ -601,6 +614,8 @@ def scenarios(tier, seed):
                 S.append(CopyObject(cls=cls, target=t, children=ch))
                 if ch and (tier != "quick" or t == "other"):
                     S.append(CopyObject(cls=cls, target=t, children=ch, reopen_first=True))
+                if cls in ("Points", "Curve") and (tier != "quick" or t != "group"):
+                    S.append(CopyObject(cls=cls, target=t, children=ch, visual=True))
     for kind in ("float", "integer", "referenced"):
         for cross in (False, True):
             S.append(CopyData(kind=kind, cross=cross))
